@@ -284,6 +284,13 @@ pub(crate) struct DirectoryInfo {
 }
 
 impl DirEntry {
+    /// Verification hook H1: public forwarder to the crate-private on-disk
+    /// serialiser, so that it can be compared with a model on boundary values.
+    #[cfg(feature = "verif-hooks")]
+    pub fn verif_serialize(&self, fat_type: FatType) -> [u8; OnDiskDirEntry::LEN] {
+        self.serialize(fat_type)
+    }
+
     pub(crate) fn serialize(&self, fat_type: FatType) -> [u8; OnDiskDirEntry::LEN] {
         let mut data = [0u8; OnDiskDirEntry::LEN];
         data[0..11].copy_from_slice(&self.name.contents);
